@@ -17,6 +17,7 @@ import numpy as np
 ACTIVE = False
 NPINT = False  # whole-number keyword arguments (k, n_splits, shape, size, random_state, ...) handed over as numpy integers instead of Python ints
 POSITIONAL = False  # keyword arguments handed over by position, in the order of the documented signature (see REQUIRED)
+SEQFORM = None  # "list" / "array": regions, shapes and spacings that the checks write as tuples are handed over as lists / numpy arrays
 EXPLICIT = False  # the converse for options with an explicit spelling that must behave like the default on this image (see EQUIVALENT)
 
 # engine="numpy" is documented as the pure-numpy implementation, which "auto" selects when numba is missing (it is, here)
@@ -113,6 +114,19 @@ def _npint(v):
     return v
 
 
+SEQ_NAMES = ("region", "shape", "spacing")
+
+
+def _seqform(name, v):
+    """a tuple of plain numbers given for a region, shape or spacing as a list or as one numpy array (documented as 'list', 'tuple' or 'array')"""
+    if name in SEQ_NAMES and type(v) is tuple and v and all(type(x) in (int, float) for x in v):
+        if SEQFORM == "list":
+            return list(v)
+        if SEQFORM == "array" and len({type(x) for x in v}) == 1:
+            return np.array(v)
+    return v
+
+
 def _positional(order, table, args, kwargs, fill):
     """Moves keyword arguments to positions, following the documented signature, as far as that can be done without skipping a
     parameter; with `fill`, a skipped optional parameter is given its documented default by position so that later ones can follow."""
@@ -145,6 +159,10 @@ class _Proxy:
             kwargs = {**self._equivalent, **kwargs}
         if NPINT:
             kwargs = {k: _npint(v) for k, v in kwargs.items()}
+        if SEQFORM:
+            kwargs = {k: _seqform(k, v) for k, v in kwargs.items()}
+            if self._order is not None:
+                args = tuple(_seqform(name, v) for name, v in zip(self._order, args)) + tuple(args[len(self._order):])
         if POSITIONAL and self._order is not None:
             args, kwargs = _positional(self._order, self._table, args, kwargs, fill=not ACTIVE)
         return self._target(*args, **kwargs)
@@ -185,6 +203,12 @@ def positional_flag_for(case):
     """Whether this case passes its keyword arguments by position (a quarter of the cases)."""
     h = hashlib.sha1(json.dumps(case, sort_keys=True, default=str).encode()).digest()
     return h[4] % 4 == 0
+
+
+def seqform_for(case):
+    """How this case hands over regions, shapes and spacings written as tuples: as they are (two thirds), as lists or as arrays (a sixth each)."""
+    h = hashlib.sha1(json.dumps(case, sort_keys=True, default=str).encode()).digest()
+    return {0: "list", 1: "array"}.get(h[6] % 6)
 
 
 def explicit_flag_for(case):
